@@ -21,8 +21,8 @@ def main():
             continue
         meta = json.load(open(meta_p)) if os.path.exists(meta_p) else {}
         prop = meta.get("property", d[:3])
-        if meta.get("superseded"):
-            print(d, prop, "skipped:", meta["superseded"]); continue
+        if meta.get("superseded") or meta.get("skip_quick"):
+            print(d, prop, "skipped:", meta.get("superseded") or meta.get("skip_quick")); continue
         if sh(f"git -C /repo apply {path}/patch.diff").returncode != 0:
             print(d, "patch does not apply to", head); continue
         r = sh(f"cd /verif && ./check {prop} quick")
